@@ -53,7 +53,10 @@ PROBE_CMD(smry_write) {
     Opm::ErrorGuard eg;
     struct Clear { Opm::ErrorGuard& g; ~Clear() { g.clear(); } } clear{eg};
 
-    const auto deck = Opm::Parser{}.parseString(jstr(req, "deck"), pc, eg);
+    // deck_path: the deck text has been written there by the caller (a restart deck resolves its RESTART root
+    // relative to the directory of the deck file)
+    const auto deck = jhas(req, "deck_path") ? Opm::Parser{}.parseFile(jstr(req, "deck_path"), pc, eg)
+                                             : Opm::Parser{}.parseString(jstr(req, "deck"), pc, eg);
     Opm::EclipseState es(deck);
     es.getIOConfig().setOutputDir(jstr(req, "dir"));
     es.getIOConfig().setBaseName(jstr(req, "base"));
